@@ -58,6 +58,8 @@ fn custom_model(k: usize) -> Model {
 fn custom_path(k: usize) -> PathBuf {
     // one of the files sits at a path that ends like the system's own zone file: it is still the named file
     if k == 5 { return work_dir().join("host").join("etc").join("localtime"); }
+    // and one at a path with a comma in it: a path is a path, whatever rule strings look like
+    if k == 6 { return work_dir().join("dir,with,M3.2.0").join("z6.tzif"); }
     work_dir().join(format!("z{k}.tzif"))
 }
 pub fn ensure_files() -> Result<(), String> {
